@@ -201,15 +201,50 @@ Qed.
 
 (* ---- slicing a byte string (seek + read, short at EOF) ----------------- *)
 
-Definition take (n : Z) (l : bytes) : bytes := firstn (Z.to_nat n) l.
-Definition drop (n : Z) (l : bytes) : bytes := skipn (Z.to_nat n) l.
-Definition read_at (pos n : Z) (l : bytes) : bytes := take n (drop pos l).
 Definition blen (l : bytes) : Z := Z.of_nat (length l).
+
+(* The [Z.min] guards keep evaluation cheap when a length field read from a
+   file is astronomically large; they do not change the result (lemmas below). *)
+Definition take (n : Z) (l : bytes) : bytes := firstn (Z.to_nat (Z.min n (blen l))) l.
+Definition drop (n : Z) (l : bytes) : bytes := skipn (Z.to_nat (Z.min n (blen l))) l.
+Definition read_at (pos n : Z) (l : bytes) : bytes := take n (drop pos l).
+
+Lemma take_firstn n l : take n l = firstn (Z.to_nat n) l.
+Proof.
+  unfold take, blen. destruct (Z_le_gt_dec n (Z.of_nat (length l))) as [H|H].
+  - rewrite Z.min_l by lia. reflexivity.
+  - rewrite Z.min_r by lia. rewrite Nat2Z.id.
+    rewrite firstn_all. symmetry. apply firstn_all2. lia.
+Qed.
+
+Lemma drop_skipn n l : drop n l = skipn (Z.to_nat n) l.
+Proof.
+  unfold drop, blen. destruct (Z_le_gt_dec n (Z.of_nat (length l))) as [H|H].
+  - rewrite Z.min_l by lia. reflexivity.
+  - rewrite Z.min_r by lia. rewrite Nat2Z.id.
+    rewrite skipn_all. symmetry. apply skipn_all2. lia.
+Qed.
+
+Lemma take_app_exact x r : take (blen x) (x ++ r) = x.
+Proof.
+  rewrite take_firstn. unfold blen. rewrite Nat2Z.id.
+  rewrite firstn_app, Nat.sub_diag, firstn_all. cbn. apply app_nil_r.
+Qed.
+
+Lemma drop_app_exact x r : drop (blen x) (x ++ r) = r.
+Proof.
+  rewrite drop_skipn. unfold blen. rewrite Nat2Z.id.
+  rewrite skipn_app, Nat.sub_diag, skipn_all. reflexivity.
+Qed.
 
 Lemma read_at_app pre x post :
   read_at (blen pre) (blen x) (pre ++ x ++ post) = x.
 Proof.
-  unfold read_at, take, drop, blen. rewrite !Nat2Z.id.
-  rewrite skipn_app, Nat.sub_diag, skipn_all. cbn [skipn app].
-  rewrite firstn_app, Nat.sub_diag, firstn_all. cbn. apply app_nil_r.
+  unfold read_at. rewrite drop_app_exact. apply take_app_exact.
 Qed.
+
+Lemma blen_app a b : blen (a ++ b) = blen a + blen b.
+Proof. unfold blen. rewrite app_length. lia. Qed.
+
+Lemma blen_nonneg l : 0 <= blen l.
+Proof. unfold blen. lia. Qed.
